@@ -233,7 +233,8 @@ Lemma float_arr_rt : forall q fixed cap w l,
   lenG fixed (length l) cap = true ->
   assignG q fixed cap (EPrim (KF w)) (PList l) = Ok (PArr (DF (pwd PW w)) l).
 Proof.
-  intros q fixed cap w l Ho Hf Hl. cbn [assignG]. unfold slowG, np_array, float_src_ok.
+  intros q fixed cap w l Ho Hf Hl. cbn [assignG]. unfold slowG. rewrite int_src_ok_other by exact I.
+  unfold np_array, float_src_ok.
   rewrite forallb_forall in Ho, Hf.
   assert (Hfl : forall x, In x l -> exists b, x = PFloat b).
   { intros x Hx. specialize (Ho x Hx). destruct x; cbn [elem_ok] in Ho; try discriminate. eauto. }
@@ -259,7 +260,7 @@ Qed.
 Lemma comp_arr_rt : forall q fixed cap t l, forallb (is_inst t) l = true -> lenG fixed (length l) cap = true ->
   assignG q fixed cap (EComp t) (PList l) = Ok (PArr DObj l).
 Proof.
-  intros q fixed cap t l Hi Hl. cbn [assignG]. unfold slowG, np_array.
+  intros q fixed cap t l Hi Hl. cbn [assignG]. unfold slowG. rewrite int_src_ok_other by exact I. unfold np_array.
   destruct (np_flat_atoms l) as [sh E].
   { rewrite forallb_forall in *. intros x Hx. specialize (Hi x Hx). destruct x; try discriminate. reflexivity. }
   rewrite E. cbn [bind snd dtype_of]. rewrite mapM_id by reflexivity. cbn [bind]. rewrite Hl.
@@ -271,7 +272,7 @@ Qed.
 (* every field of primitive (element) type *)
 Lemma prim_field_rt : forall q f s b,
   match f with FScalar (EPrim _) | FArr _ _ _ (EPrim _) => True | _ => False end -> ftype_strok f = true ->
-  field_ok PW false f s = true -> (q = false -> field_ok PW true f s = true) -> slot_rt q f s = true ->
+  field_ok PW false f s = true -> (need_strict q -> field_ok PW true f s = true) -> slot_rt q f s = true ->
   tb_field f s = Some b -> field_value TG PW q f b = Ok s.
 Proof.
   intros q f s b Hp Hst Ho Hs Hr Hb.
@@ -339,7 +340,7 @@ Section Main.
   Hypothesis Hdef : db_defaults_ok q db = true.
 
   Definition good (o : pyval) : Prop :=
-    wfv PW db false o = true /\ (q = false -> wfv PW db true o = true) /\ rt_ok q db o = true.
+    wfv PW db false o = true /\ (need_strict q -> wfv PW db true o = true) /\ rt_ok q db o = true.
 
   Definition IHrec (rec : pyval -> pyval -> pyval * option exc) (n : nat) : Prop :=
     forall tid slots b, good (PObj tid slots) -> (vdepth (PObj tid slots) <= n)%nat ->
@@ -353,7 +354,7 @@ Section Main.
   Qed.
 
   Lemma good_obj : forall tid slots, good (PObj tid slots) -> exists c,
-    nth_error db tid = Some c /\ obj_ok PW false c slots = true /\ (q = false -> obj_ok PW true c slots = true) /\
+    nth_error db tid = Some c /\ obj_ok PW false c slots = true /\ (need_strict q -> obj_ok PW true c slots = true) /\
     slots_rt q (c_fields c) slots = true /\ (forall s, In s slots -> good s).
   Proof.
     intros tid slots (W & Ws & R). cbn [wfv rt_ok] in *. destruct (nth_error db tid) as [c|]; [|discriminate].
@@ -381,7 +382,7 @@ Section Main.
   Lemma step_rt : forall rec n c f s bv cpre d csl,
     IHrec rec n ->
     nth_error (c_fields c) (length cpre) = Some f -> ftype_strok f = true ->
-    field_ok PW false f s = true -> (q = false -> field_ok PW true f s = true) -> slot_rt q f s = true ->
+    field_ok PW false f s = true -> (need_strict q -> field_ok PW true f s = true) -> slot_rt q f s = true ->
     good s -> (vdepth s <= n)%nat ->
     (forall t, f = FScalar (EComp t) -> d = PNone \/ d = default_obj TG PW q db t) ->
     tb_b db f s = Some bv ->
@@ -441,7 +442,7 @@ Section Main.
   Definition slot_hyp (u : bool) (n : nat) (f : ftype) (s : pyval) : Prop :=
     (u = true /\ s = PNone) \/
     (is_none s = false /\ ftype_strok f = true /\ field_ok PW false f s = true /\
-     (q = false -> field_ok PW true f s = true) /\ slot_rt q f s = true /\ good s /\ (vdepth s <= n)%nat).
+     (need_strict q -> field_ok PW true f s = true) /\ slot_rt q f s = true /\ good s /\ (vdepth s <= n)%nat).
   Definition dflt_hyp (f : ftype) (d : pyval) : Prop :=
     forall t, f = FScalar (EComp t) -> d = PNone \/ d = default_obj TG PW q db t.
 
@@ -527,7 +528,7 @@ Section Main.
   Qed.
 
   Lemma build_slot_hyp : forall u n fs sl, forallb ftype_strok fs = true ->
-    fields_ok PW false u fs sl = true -> (q = false -> fields_ok PW true u fs sl = true) ->
+    fields_ok PW false u fs sl = true -> (need_strict q -> fields_ok PW true u fs sl = true) ->
     slots_rt q fs sl = true -> (forall s, In s sl -> good s) -> (list_max (map vdepth sl) <= n)%nat ->
     Forall2 (slot_hyp u n) fs sl.
   Proof.
@@ -563,7 +564,7 @@ Section Main.
       destruct (tb_go db (c_fields c) slots 0) as [kv|] eqn:Eg; [|discriminate].
       cbn [option_map] in Hb. inversion Hb; subst b. cbn [ufb_kv].
       unfold obj_ok in Of. apply andb_true_iff in Of. destruct Of as [Hf Hc].
-      assert (Os' : q = false -> fields_ok PW true (c_union c) (c_fields c) slots = true).
+      assert (Os' : need_strict q -> fields_ok PW true (c_union c) (c_fields c) slots = true).
       { intros Hq. specialize (Os Hq). unfold obj_ok in Os. apply andb_true_iff in Os. tauto. }
       assert (Hst : forallb ftype_strok (c_fields c) = true).
       { unfold db_strok in Hstr. rewrite forallb_forall in Hstr. apply Hstr. eapply nth_error_In; eauto. }
@@ -588,7 +589,7 @@ End Main.
 Theorem builtin_roundtrip : forall q db fuel tid slots b,
   db_strok db = true -> db_defaults_ok q db = true ->
   let o := PObj tid slots in
-  wfv PW db false o = true -> (q = false -> wfv PW db true o = true) -> rt_ok q db o = true ->
+  wfv PW db false o = true -> (need_strict q -> wfv PW db true o = true) -> rt_ok q db o = true ->
   tb db o = Some b -> (vdepth o <= fuel)%nat ->
   ufb TG PW q db fuel (default_obj TG PW q db tid) b = (o, None).
 Proof.
@@ -599,7 +600,8 @@ Qed.
 (* ================================================================ the hypotheses are satisfiable and cannot be dropped *)
 (* all premises of builtin_roundtrip as one boolean *)
 Definition rt_premises (q : bool) (db : tdb) (fuel tid : nat) (slots : list pyval) : bool :=
-  db_strok db && db_defaults_ok q db && wfv PW db false (PObj tid slots) && (q || wfv PW db true (PObj tid slots))
+  db_strok db && db_defaults_ok q db && wfv PW db false (PObj tid slots)
+  && ((q && negb (t_arr_precheck TG)) || wfv PW db true (PObj tid slots))
   && rt_ok q db (PObj tid slots) && Nat.leb (vdepth (PObj tid slots)) fuel.
 
 Corollary builtin_roundtrip_b : forall q db fuel tid slots b, rt_premises q db fuel tid slots = true ->
@@ -609,7 +611,7 @@ Proof.
   intros q db fuel tid slots b H Hb. unfold rt_premises in H.
   repeat (apply andb_true_iff in H; let H' := fresh "P" in destruct H as [H H']).
   apply builtin_roundtrip; auto.
-  - intros Hq. subst q. exact P1.
+  - intros [Hq|Hp]; [subst q; exact P1|]. rewrite Hp in P1. cbn [negb] in P1. rewrite andb_false_r in P1. exact P1.
   - apply Nat.leb_le. exact P.
 Qed.
 
